@@ -43,6 +43,15 @@ theorem inverse_singular (n : ℕ) (hn : 1 ≤ n) (A : Mat.M F n) (h : (toMatrix
   obtain ⟨k, rfl⟩ : ∃ k, n = k + 1 := ⟨n - 1, by omega⟩
   exact ⟨_, Mat.inverse_singular_eq A h⟩
 
+/-- The executable reference `Mat.laplace` (first-row Laplace expansion, the driver's oracle on the implementation's
+    output) is the Leibniz determinant, for every size and every matrix. -/
+theorem laplace_eq_det (n : ℕ) (A : Mat.M F n) : Mat.laplace n A = (toMatrix A).det :=
+  Mat.laplace_eq A
+
+/-- Hence the computed determinant always agrees with the executable reference. -/
+theorem determinant_eq_laplace (n : ℕ) (A : Mat.M F n) : Mat.determinant n A = .ok (Mat.laplace n A) := by
+  rw [det_correct, laplace_eq_det]
+
 /-- Non-vacuity: a concrete 3×3 rational matrix whose (0,0) entry is zero, so that elimination starts with a row
     exchange (the pivot search finds row 1); its determinant is −2 ≠ 0, the code computes −2, and `inverse` succeeds. -/
 example :
